@@ -39,6 +39,10 @@ def cleanup(dst):
         from pbt import env as _env
 
         h = _env.tree_hash(dst)
+        ref = os.path.join(VERIF, ".work", "c18ref")
+        for d in os.listdir(ref) if os.path.isdir(ref) else []:
+            if d.startswith(h) and h != _env.tree_hash("/repo"):
+                shutil.rmtree(os.path.join(ref, d), ignore_errors=True)
         root = os.path.join(VERIF, ".cache", "numba")
         if h != _env.tree_hash("/repo"):
             for d in os.listdir(root) if os.path.isdir(root) else []:
